@@ -553,6 +553,10 @@ def run(prog, rep, tier):
     check_coupled_array(prog, rep)
     check_rank_change(prog, rep)
     n_ob, n_dis = check_charge_c02(prog, rep)
+    rep.rule('DTYPE-blocks', 'the dtype claim of an Array is not re-stated from a single block '
+             'unless all blocks come from one uniform map')
+    if check_dtype_blocks(prog, rep) < 3:
+        raise AnalysisError('DTYPE-blocks: dtype claims in Array methods not found')
     rep.floor('FLAG-Q-reset', 25)
     rep.floor('FLAG-Q-true-claim', 12)
     rep.floor('FLAG-L-reset', 12)
@@ -568,3 +572,51 @@ def run(prog, rep, tier):
         'coupled updates of Array fields, and symbolic total-charge bookkeeping (%d obligations, '
         '%d discharged) decided on the current source of np_conserved.py / charges.py.' %
         (n_ob, n_dis), proof={'obligations': max(n_ob, 1), 'discharged': n_dis})
+
+
+# ------------------------------------------------------------------ DTYPE-blocks
+def check_dtype_blocks(prog, rep):
+    """DTYPE-blocks: `Array.dtype` is a claim about EVERY stored block. A method that re-states it
+    from a single block (`self._data[k].dtype`) is only right when all blocks were produced by one
+    uniform map in that method (`self._data = [f(b) for b in self._data]`); where blocks come from
+    different sources (both operands of a binary operation, kept and new blocks), the dtype has to
+    be promoted over all of them and the blocks cast to it."""
+    m = prog.module(NPC)
+    n = 0
+    for q, f in m.functions.items():
+        if not q.startswith('Array.'):
+            continue
+        for st in stmts_of(f):
+            if not (isinstance(st, ast.Assign) and any(is_self_attr(t, 'dtype')
+                                                      for t in st.targets)):
+                continue
+            single = [x for x in ast.walk(st.value) if isinstance(x, ast.Attribute) and
+                      x.attr == 'dtype' and isinstance(x.value, ast.Subscript) and
+                      is_self_attr(x.value.value, '_data') and
+                      isinstance(x.value.slice, (ast.Constant, ast.UnaryOp))]
+            n += 1
+            if not single:
+                rep.instance('DTYPE-blocks', {'function': q, 'claim': key_text(st)[:70],
+                                              'from_single_block': False})
+                continue
+            producers = [s2 for s2 in stmts_of(f) if isinstance(s2, ast.Assign) and any(
+                is_self_attr(t, '_data') for t in s2.targets)]
+            other = [c for c in body_nodes(f) if isinstance(c, ast.Call) and isinstance(
+                c.func, ast.Attribute) and is_self_attr(c.func.value, '_data') and
+                c.func.attr in ('append', 'extend', 'insert')] + [
+                s2 for s2 in stmts_of(f) if isinstance(s2, ast.Assign) and any(
+                    isinstance(t, ast.Subscript) and is_self_attr(t.value, '_data')
+                    for t in s2.targets)]
+            uniform = bool(producers) and not other and all(
+                isinstance(p_.value, ast.ListComp) and len(p_.value.generators) == 1 and
+                is_self_attr(p_.value.generators[0].iter, '_data') for p_ in producers)
+            rep.instance('DTYPE-blocks', {'function': q, 'claim': key_text(st)[:70],
+                                          'from_single_block': True, 'uniform_map': uniform})
+            if not uniform:
+                rep.violation('DTYPE-blocks', m, q, 'single-block-dtype',
+                              '`%s` takes the dtype of the whole tensor from one block, but the '
+                              'blocks of %s come from different sources (%d producing '
+                              'statements): a block kept from one operand can have another '
+                              'dtype than the claim' % (key_text(st)[:60], q,
+                                                        len(producers) + len(other)), st.lineno)
+    return n
